@@ -3,12 +3,17 @@ from . import treechecks
 
 
 def run(ctx):
-    return treechecks.run(ctx, "C02", ["MlsVerif.Props.C02"], "C02",
+    return treechecks.run(ctx, "C02", ["MlsVerif.Props.C02", "MlsVerif.Props.C02Group"], "C02",
                           "a path secret was sealed to a key outside the new tree's copath resolutions or to a leaf added by the same commit, joiner secrets went to a tree key, "
                           "or a removed member's retained group processed a later commit",
                           ["'never learns a later authenticator' is the symbolic consequence of removed_cannot_open_seals (no later seal targets a key the removed member holds) under free-term crypto; "
                            "the check feeds every later commit to the removed members' retained groups",
-                           "every hpke_seal issued while a commit is built is recorded by a wrapping CipherSuiteProvider and classified by its EncryptContext label"])
+                           "every hpke_seal issued while a commit is built is recorded by a wrapping CipherSuiteProvider and classified by its EncryptContext label",
+                           "MlsVerif.Props.C02Group: Dolev-Yao style derivability over the composed group model — a member removed by a path commit (also one that had missed commits) derives no path "
+                           "secret, commit secret or epoch secret of that or any later epoch from its last state and all public seals, as long as no key it knows is re-introduced (NoReintro, "
+                           "decidable); negative example without a path; Welcome secrecy. The adversary has its LAST state, not everything it ever saw; no compromise / PCS statement. "
+                           "Tie: the `g.*` rows (the removed members' retained groups stay in their own class of the partition)"],
+                          also=[(None, "group", "hist-group")])
 
 
 def replay(ctx, path):
